@@ -415,7 +415,18 @@ type RecBackend struct {
 	willAt      map[string]bool          // the cleanup of a connection with the id is waiting at that gate
 	restoreGate map[string]chan struct{} // client id -> Restore returns only once released
 	restoreAt   map[string]bool
-	deqSeen     map[*broker.Client]bool // first Dequeue call of the connection logged
+	deqSeen     map[*broker.Client]bool      // first Dequeue call of the connection logged
+	deqThen     map[string]func() bool       // "<id>/<n>" -> after Closing, the held dequeue waits up to an absence window for this
+	deqGot      map[*broker.Client]int       // messages Dequeue has returned to the connection
+	setupAt     map[*broker.Client]time.Time // when Setup was entered
+	closedAt    map[*broker.Client]time.Time // when the closed signal was seen to have fired
+	pubGate     map[string]chan struct{}     // client id -> Publish calls of the processor are held at entry until released
+	pubAt       map[string]int               // Publish calls waiting at that gate
+	// client ids whose Publish calls are logged: `Pub <site> <msg>` at entry, `PubAck <site> <msg>` when the backend invokes the
+	// acknowledgement, `PubRet <site> ok|err <msg>` on return
+	logPublishes map[string]bool
+	// client id -> MaximumKeepAlive the backend imposes on its connections
+	maxKeepAliveFor map[string]time.Duration
 	// client id -> TokenTimeout of its connections (the default, 30 s, otherwise)
 	tokenTimeoutFor map[string]time.Duration
 	// every will publication is slowed down by this much (a slow backend): what must wait for it is then visibly late
@@ -443,6 +454,26 @@ func (b *RecBackend) holdDequeueUntilClosing(id string, n int) {
 	b.mu.Lock()
 	b.deqGate[fmt.Sprintf("%s/%d", id, n)] = true
 	b.mu.Unlock()
+}
+
+// holdDequeueUntilClosingThen: as holdDequeueUntilClosing; once the connection is closing the held message is kept back for up to
+// an absence window longer, or until cond holds
+func (b *RecBackend) holdDequeueUntilClosingThen(id string, n int, cond func() bool) {
+	b.mu.Lock()
+	b.deqGate[fmt.Sprintf("%s/%d", id, n)] = true
+	b.deqThen[fmt.Sprintf("%s/%d", id, n)] = cond
+	b.mu.Unlock()
+}
+
+// dequeued: how many messages Dequeue has returned to the n-th connection of the id
+func (b *RecBackend) dequeued(id string, n int) int {
+	b.mu.Lock()
+	defer b.mu.Unlock()
+	l := b.perID[id]
+	if len(l) < n {
+		return 0
+	}
+	return b.deqGot[l[n-1]]
 }
 
 // dequeueHeld: the n-th connection of the id has taken a message out of the queue and is held before returning it
@@ -492,6 +523,43 @@ func (b *RecBackend) atWillGate(id string) bool {
 	b.mu.Lock()
 	defer b.mu.Unlock()
 	return b.willAt[id]
+}
+
+// holdPublish: Publish calls made by the processor of connections with the id wait at the entry of the backend until released
+// (the backend has not accepted anything yet: no acknowledgement may reach the publisher)
+func (b *RecBackend) holdPublish(id string) func() {
+	ch := make(chan struct{})
+	b.mu.Lock()
+	b.pubGate[id] = ch
+	b.mu.Unlock()
+	var once sync.Once
+	return func() {
+		once.Do(func() {
+			b.mu.Lock()
+			delete(b.pubGate, id)
+			b.mu.Unlock()
+			close(ch)
+		})
+	}
+}
+
+func (b *RecBackend) atPublishGate(id string) int {
+	b.mu.Lock()
+	defer b.mu.Unlock()
+	return b.pubAt[id]
+}
+
+// cleanupTook: how long after the newcomer entered Setup the closed signal of the connection it displaces was seen
+// (ok=false: not seen yet)
+func (b *RecBackend) cleanupTook(old, newcomer *broker.Client) (time.Duration, bool) {
+	b.mu.Lock()
+	defer b.mu.Unlock()
+	t1, ok1 := b.closedAt[old]
+	t0, ok0 := b.setupAt[newcomer]
+	if !ok0 || !ok1 {
+		return 0, false
+	}
+	return t1.Sub(t0), true
 }
 
 // setupCalls reports how many connections have presented the id so far
@@ -545,6 +613,10 @@ func (b *RecBackend) Dequeue(c *broker.Client) (*packet.Message, broker.Ack, err
 	m, ack, err := b.MemoryBackend.Dequeue(c)
 	b.mu.Lock()
 	key := b.gateOf[c]
+	if m != nil {
+		b.deqGot[c]++
+	}
+	then := b.deqThen[key]
 	hold := m != nil && b.deqGate[key]
 	if hold {
 		b.deqAtGate[key] = true
@@ -554,6 +626,11 @@ func (b *RecBackend) Dequeue(c *broker.Client) (*packet.Message, broker.Ack, err
 		select {
 		case <-c.Closing():
 		case <-time.After(long):
+		}
+		if then != nil {
+			// the connection is closing; its successor cannot do anything before this connection is closed (it is waiting
+			// inside Setup), so this wait runs out — unless the successor is already at work
+			waitFor(absence, then)
 		}
 		b.mu.Lock()
 		b.deqAtGate[key] = false
@@ -569,6 +646,8 @@ func newRecBackend() *RecBackend {
 		perID: map[string][]*broker.Client{}, termGate: map[string]chan struct{}{}, deqGate: map[string]bool{}, deqAtGate: map[string]bool{},
 		gateOf: map[*broker.Client]string{}, authGate: map[string]chan struct{}{}, authAt: map[string]bool{}, setupGate: map[string]chan struct{}{},
 		willGate: map[string]chan struct{}{}, willAt: map[string]bool{}, tokenTimeoutFor: map[string]time.Duration{},
+		setupAt: map[*broker.Client]time.Time{}, closedAt: map[*broker.Client]time.Time{}, deqThen: map[string]func() bool{}, deqGot: map[*broker.Client]int{},
+		pubGate: map[string]chan struct{}{}, pubAt: map[string]int{}, logPublishes: map[string]bool{}, maxKeepAliveFor: map[string]time.Duration{},
 		restoreGate: map[string]chan struct{}{}, restoreAt: map[string]bool{}, deqSeen: map[*broker.Client]bool{},
 		pubIn: map[string]int{}, pubOut: map[string]int{}, slowFirst: map[string]time.Duration{}, inPub: map[*broker.Client]int{}}
 }
@@ -633,6 +712,7 @@ func (b *RecBackend) Setup(c *broker.Client, id string, clean bool) (broker.Sess
 	b.register(c)
 	b.mu.Lock()
 	b.setupAll[c]++
+	b.setupAt[c] = time.Now()
 	b.perID[id] = append(b.perID[id], c)
 	b.gateOf[c] = fmt.Sprintf("%s/%d", id, len(b.perID[id]))
 	gate := b.setupGate[id]
@@ -657,10 +737,16 @@ func (b *RecBackend) Setup(c *broker.Client, id string, clean bool) (broker.Sess
 		if d, ok := b.tokenTimeoutFor[id]; ok {
 			c.TokenTimeout = d
 		}
+		if d, ok := b.maxKeepAliveFor[id]; ok {
+			c.MaximumKeepAlive = d
+		}
 		b.mu.Unlock()
 		b.log.add(c, "SetupRet ok %s", hx.B01(resumed))
 		go func() {
 			<-c.Closed()
+			b.mu.Lock()
+			b.closedAt[c] = time.Now()
+			b.mu.Unlock()
 			b.log.add(c, "Closed")
 		}()
 	}
@@ -813,10 +899,48 @@ func (b *RecBackend) Publish(c *broker.Client, m *packet.Message, ack broker.Ack
 	if site == "publish" {
 		kind = fmt.Sprintf("publish-qos%d", m.QOS)
 	}
+	b.mu.Lock()
+	logIt := b.logPublishes[id]
+	var pg chan struct{}
+	if site != "will" {
+		pg = b.pubGate[id]
+		if pg != nil {
+			b.pubAt[id]++
+		}
+	}
+	b.mu.Unlock()
+	text := ""
+	if logIt {
+		text = hx.MsgText(m)
+		b.log.add(c, "Pub %s %s", site, text)
+		if inner := ack; inner != nil {
+			ack = func() {
+				b.log.add(c, "PubAck %s %s", site, text)
+				inner()
+			}
+		}
+	}
+	if pg != nil {
+		select {
+		case <-pg:
+		case <-time.After(long):
+		}
+	}
 	if b.inject("publish", c) || b.inject(kind, c) {
+		if logIt {
+			b.log.add(c, "PubRet %s err %s", site, text)
+		}
 		return errInjected
 	}
-	return b.MemoryBackend.Publish(c, m, ack)
+	err := b.MemoryBackend.Publish(c, m, ack)
+	if logIt {
+		res := "ok"
+		if err != nil {
+			res = "err"
+		}
+		b.log.add(c, "PubRet %s %s %s", site, res, text)
+	}
+	return err
 }
 
 func (b *RecBackend) Subscribe(c *broker.Client, subs []packet.Subscription, ack broker.Ack) error {
